@@ -55,10 +55,14 @@ def run(sc, max_events=4000):
         subs[k] = mks(k)
     t0 = sim.now_us
     try:
-        _drive(sim, n, ecu, sc, t0, add, cbs, subs)
+        with vt.watchdog():
+            _drive(sim, n, ecu, sc, t0, add, cbs, subs)
     except TooBig:
         sim.log = _log
         sim.log({"ev": "spin", "node": "A"})      # the ECU keeps firing callbacks without letting time pass
+    except vt.Runaway as e:
+        sim.log = _log
+        sim.hang(e)
     sim.log = _log
     sim.log({"ev": "end", "node": "A"})
     tr_scripts = [None] * ncb
